@@ -14,8 +14,11 @@ from optuna.storages.journal._base import BaseJournalBackend
 import symex as sx
 
 
+PASS_THROUGH: tuple = ()      # further proxy classes that stand for finite JSON numbers (registered by harnesses)
+
+
 def jsonish(x):
-    if sx.is_symnum(x):
+    if sx.is_symnum(x) or (PASS_THROUGH and isinstance(x, PASS_THROUGH)):
         return x
     if isinstance(x, enum.IntEnum):
         return int(x)
@@ -40,7 +43,7 @@ def jsonish(x):
 
 
 def has_sym(x):
-    if sx.is_symnum(x):
+    if sx.is_symnum(x) or (PASS_THROUGH and isinstance(x, PASS_THROUGH)):
         return True
     if isinstance(x, dict):
         return any(has_sym(v) for v in x.values())
@@ -65,3 +68,28 @@ class ListBackend(BaseJournalBackend):
 
     def append_logs(self, logs):
         self.logs.extend(roundtrip(l) for l in logs)
+
+
+class _JsonToken(str):
+    pass
+
+
+class JsonModel:
+    """stands in for the `json` module where proxies flow through dumps/loads: the real json when the value is concrete"""
+
+    def __getattr__(self, n):
+        return getattr(json, n)
+
+    @staticmethod
+    def dumps(obj, *a, **kw):
+        if has_sym(obj):
+            t = _JsonToken("<json with symbolic numbers>")
+            t.val = jsonish(obj)
+            return t
+        return json.dumps(obj, *a, **kw)
+
+    @staticmethod
+    def loads(s, *a, **kw):
+        if isinstance(s, _JsonToken):
+            return copy.deepcopy(s.val)
+        return json.loads(s, *a, **kw)
